@@ -37,9 +37,6 @@ theorem np_pure {α} (a : α) (s : PState) : np (pure a : PM α) s ↔ True := b
 
 theorem np_fail {α} (e : PFail) (s : PState) : np (fail e : PM α) s ↔ NotPanic e := by
   simp [np, NotPanic, fail, throw, throwThe, MonadExceptOf.throw, StateT.run, StateT.lift, bind, Except.bind]
-  constructor
-  · intro h w hw; exact h w hw
-  · intro h w hw; exact h w hw
 
 theorem notPanic_err (t : Tok) (m : String) : NotPanic (newParseError t m) ↔ True :=
   iff_true_intro (fun _ h => by cases h)
@@ -97,6 +94,9 @@ def NP {α} (m : PM α) : Prop := ∀ s, np m s
 
 theorem NP.iff {α} {m : PM α} (h : NP m) (s : PState) : np m s ↔ True := iff_true_intro (h s)
 
+theorem wp_true_iff {α} (m : PM α) (s : PState) : wp m s (fun _ _ => True) ↔ True :=
+  iff_true_intro (wp_true m s)
+
 theorem wp_unfold {α} (m : PM α) (s : PState) (Q : α → PState → Prop) :
     wp m s Q ↔ ∀ a s', m.run s = .ok (a, s') → Q a s' := Iff.rfl
 
@@ -106,11 +106,13 @@ macro_rules
   | `(tactic| npsimp) => `(tactic| swp [np_bind, np_pure, np_fail, np_ite, notPanic_err, notPanic_rerr,
       notPanic_fuel, notPanic_panic, np_get, np_set, np_modify, np_cur, np_peek, np_peek2, np_peek3, np_peek4,
       np_nextToken, np_curIs, np_peekIs, np_peek2Is, np_expectPeek, np_expectPeekErr, np_tryReplace, np_newSid,
-      np_pushBreak, np_popBreak, np_pushContinue, np_popContinue, wp_modify, wp_set, and_true, true_and])
+      np_pushBreak, np_popBreak, np_pushContinue, np_popContinue, wp_modify, wp_set, and_true, true_and,
+      wp_true_iff])
   | `(tactic| npsimp [$ts,*]) => `(tactic| swp [np_bind, np_pure, np_fail, np_ite, notPanic_err, notPanic_rerr,
       notPanic_fuel, notPanic_panic, np_get, np_set, np_modify, np_cur, np_peek, np_peek2, np_peek3, np_peek4,
       np_nextToken, np_curIs, np_peekIs, np_peek2Is, np_expectPeek, np_expectPeekErr, np_tryReplace, np_newSid,
-      np_pushBreak, np_popBreak, np_pushContinue, np_popContinue, wp_modify, wp_set, and_true, true_and, $ts,*])
+      np_pushBreak, np_popBreak, np_pushContinue, np_popContinue, wp_modify, wp_set, and_true, true_and,
+      wp_true_iff, $ts,*])
 
 /-- Finish: alternate `npsimp` with introducing binders, splitting `if`/`match` and conjunctions. -/
 syntax "npfin" (" [" Lean.Parser.Tactic.simpLemma,* "]")? : tactic
@@ -133,5 +135,134 @@ theorem np_formatNamedParams : ∀ (n : Nat) (fp : FmtParams), NP (formatNamedPa
     intro fp s
     rw [formatNamedParams]
     npsimp [(ih _).iff, (frame_formatNamedParams _ _).wp_iff]
+
+theorem np_fmtMatch {α} (x : Except String (List Char)) (f : List Char → PM α) (g : String → PM α)
+    (s : PState) :
+    np (parseFormatStringOperator.match_1 (fun _ => PM α) x f g) s ↔
+      (∀ a, x = .ok a → np (f a) s) ∧ (∀ e, x = .error e → np (g e) s) := by
+  cases x <;> simp
+
+theorem np_parseFormatStringOperator (env : Env) (n : Nat) : NP (parseFormatStringOperator env n) := by
+  intro s
+  unfold parseFormatStringOperator
+  npsimp [(np_formatNamedParams _ _).iff, (frame_formatNamedParams _ _).wp_iff, wp_fmtMatch, np_fmtMatch]
+
+theorem np_parseTextValue (env : Env) (n : Nat) : NP (parseTextValue env n) := by
+  intro s
+  unfold parseTextValue
+  npsimp [(np_parseFormatStringOperator _ _).iff, (frame_parseFormatStringOperator _ _).wp_iff]
+
+theorem np_listBlock (env : Env) : ∀ n : Nat,
+    (∀ kind am acc, NP (parseListValue env kind am n acc)) ∧
+    (∀ kind, NP (parsePoryswitchListStatement env kind n)) ∧
+    (∀ kind tok acc, NP (parsePoryswitchListCases env kind tok n acc)) := by
+  intro n
+  induction n with
+  | zero =>
+    refine ⟨?_, ?_, ?_⟩
+    · intro kind am acc s; rw [parseListValue]; npsimp
+    · intro kind s; rw [parsePoryswitchListStatement]; npsimp
+    · intro kind tok acc s; rw [parsePoryswitchListCases]; npsimp
+  | succ n ih =>
+    obtain ⟨ih1, ih2, ih3⟩ := ih
+    have f1 := fun kind am acc => (frame_listBlock env n).1 kind am acc
+    have f2 := fun kind => (frame_listBlock env n).2.1 kind
+    have f3 := fun kind tok acc => (frame_listBlock env n).2.2 kind tok acc
+    refine ⟨?_, ?_, ?_⟩
+    · intro kind am acc s
+      rw [parseListValue]
+      cases kind <;>
+        npfin [(ih1 _ _ _).iff, (ih2 _).iff, (f1 _ _ _).wp_iff, (f2 _).wp_iff]
+    · intro kind s
+      rw [parsePoryswitchListStatement]
+      npfin [(ih3 _ _ _).iff, (f3 _ _ _).wp_iff, (np_parsePoryswitchHeader _).iff,
+        (frame_parsePoryswitchHeader _).wp_iff]
+    · intro kind tok acc s
+      rw [parsePoryswitchListCases]
+      npfin [(ih1 _ _ _).iff, (ih3 _ _ _).iff, (f1 _ _ _).wp_iff, (f3 _ _ _).wp_iff]
+
+theorem np_parseListValue (env : Env) (kind : ListKind) (am : Bool) (n : Nat) (acc : List Tok) :
+    NP (parseListValue env kind am n acc) := (np_listBlock env n).1 kind am acc
+
+theorem np_parseMovesOperator (env : Env) (n : Nat) : NP (parseMovesOperator env n) := by
+  intro s
+  unfold parseMovesOperator
+  npsimp [(np_parseListValue _ _ _ _ _).iff]
+
+theorem np_cmdArgsLoop (env : Env) (sn : String) (id : Nat) (tok : Tok) :
+    ∀ (n : Nat) (a : CmdAcc), NP (cmdArgsLoop env sn id tok n a) := by
+  intro n
+  induction n with
+  | zero => intro a s; rw [cmdArgsLoop]; npsimp
+  | succ n ih =>
+    intro a s
+    rw [cmdArgsLoop]
+    npsimp [(ih _).iff, (np_parseFormatStringOperator _ _).iff, (frame_parseFormatStringOperator _ _).wp_iff,
+      (np_parseMovesOperator _ _).iff, (frame_parseMovesOperator _ _).wp_iff]
+
+theorem np_parseCommandStatement (env : Env) (sn : String) (n : Nat) :
+    NP (parseCommandStatement env sn n) := by
+  intro s
+  unfold parseCommandStatement
+  npsimp [(np_cmdArgsLoop _ _ _ _ _ _).iff, wp_bumpCmdId]
+
+theorem np_expectPeekVarOrAutoVar (env : Env) (sn : String) (n : Nat) :
+    NP (expectPeekVarOrAutoVar env sn n) := by
+  intro s
+  unfold expectPeekVarOrAutoVar
+  npfin [(np_parseCommandStatement _ _ _).iff, (frame_parseCommandStatement _ _ _).wp_iff]
+
+/-- First panic site: when the peek token is an `IDENT` (as `peekTokenIsAutoVar` requires),
+`expectPeekVarOrAutoVar` does not return `none`. -/
+theorem autoVar_some (env : Env) (sn : String) (n : Nat) (s : PState)
+    (h : (s.toks.getD 1 s.eof).type = .IDENT) :
+    wp (expectPeekVarOrAutoVar env sn n) s (fun r _ => r ≠ none) := by
+  unfold expectPeekVarOrAutoVar
+  have h1 : ((s.toks.getD 1 s.eof).type == TT.VAR) = false := by rw [h]; decide
+  wpsimp [(frame_parseCommandStatement _ _ _).wp_iff, h1]
+  wpfin [wp_true_iff]
+  all_goals first | exact wp_true _ _ | simp
+
+theorem np_peekTokenIsAutoVar (env : Env) : NP (peekTokenIsAutoVar env) := by
+  intro s; unfold peekTokenIsAutoVar; npsimp
+
+/-- `peekTokenIsAutoVar` only returns `true` on an `IDENT`. -/
+theorem peekTokenIsAutoVar_true (env : Env) (s : PState) :
+    wp (peekTokenIsAutoVar env) s (fun r s' => s' = s ∧ (r = true → (s.toks.getD 1 s.eof).type = .IDENT)) := by
+  unfold peekTokenIsAutoVar
+  wpsimp
+  split <;> simp_all
+
+theorem np_collectUntil (stop : Tok → Bool) (onEOF : PFail) (h : NotPanic onEOF) :
+    ∀ (n : Nat) (parts : List String), NP (collectUntil stop onEOF n parts) := by
+  intro n
+  induction n with
+  | zero => intro parts s; rw [collectUntil]; npsimp
+  | succ n ih =>
+    intro parts s; rw [collectUntil]
+    npsimp [(ih _).iff, iff_true_intro h]
+
+theorem np_valueLoop (vt : Tok) : ∀ (n k : Nat) (parts : List String), NP (valueLoop vt n k parts) := by
+  intro n
+  induction n with
+  | zero => intro k parts s; rw [valueLoop]; npsimp
+  | succ n ih => intro k parts s; rw [valueLoop]; npsimp [(ih _ _).iff]
+
+theorem np_collectUntilRange (st : Tok) :
+    ∀ (n : Nat) (parts : List String), NP (parseConditionVarOperator.collectUntilRange st n parts) := by
+  intro n
+  induction n with
+  | zero => intro parts s; rw [parseConditionVarOperator.collectUntilRange]; npsimp
+  | succ n ih => intro parts s; rw [parseConditionVarOperator.collectUntilRange]; npsimp [(ih _).iff]
+
+theorem np_parseConditionVarOperator (e : OpExpr) (n : Nat) : NP (parseConditionVarOperator e n) := by
+  intro s
+  unfold parseConditionVarOperator
+  npsimp [(np_valueLoop _ _ _ _).iff, (frame_valueLoop _ _ _ _).wp_iff, (np_collectUntilRange _ _ _).iff,
+    (frame_collectUntilRange _ _ _).wp_iff]
+
+theorem np_parseConditionFlagLikeOperator (e : OpExpr) (nm : String) :
+    NP (parseConditionFlagLikeOperator e nm) := by
+  intro s; unfold parseConditionFlagLikeOperator; npsimp
 
 end Pory.Parser
